@@ -660,7 +660,7 @@ def _main(ctx, args):
     if "leanchecker" in aud:
         cov["leanchecker"] = aud["leanchecker"]
     if xl:
-        cov["translated_functions"] = xl_infos
+        cov["translated_functions"] = [i for i in xl_infos if i["function"] in xl["functions"]]
     cov.update(ctx.cov)
     ev = {
         "property_id": prop, "tier": tier, "seed": seed, "level": "proof", "coverage": cov,
